@@ -58,6 +58,25 @@ Lemma sort_types_shape_ok : sort_types_shape =
   ["sort.SliceStable(t.types, func(i, j int) bool { a := t.types[i].Name() b := t.types[j].Name() return strings.Compare(a, b) < 0 })"].
 Proof. reflexivity. Qed.
 
+(* endpoints.go: Parameters.Add / Extend / findParams, as transliterated in Foreign/EndpointSpec.v: keyed by name,
+   Extend builds a FRESH Parameters (an Extend that hands back the receiver makes the operations of a path share
+   one map: the seeded regression that motivated the endpoint model) *)
+Lemma params_shape_ok : params_shape =
+  ["func Add(param Param)";
+   "if p.items == nil { p.items = map[string]Param{} }";
+   "if _, found := p.items[param.Name]; !found { p.insertOrder = append(p.insertOrder, param.Name) }";
+   "p.items[param.Name] = param";
+   "func Extend(others ParamSet) ParamSet";
+   "res := ParamSet{}";
+   "for _, name := range p.insertOrder { res.Add(p.items[name]) }";
+   "for _, name := range others.insertOrder { res.Add(others.items[name]) }";
+   "return res";
+   "func findParams(where string) []Param";
+   "var res []Param";
+   "for _, name := range p.insertOrder { item := p.items[name] if item.In == where { res = append(res, item) } }";
+   "return res"].
+Proof. reflexivity. Qed.
+
 (* the type table and the compiler's reading of the words it yields: every OpenAPI (type, format) of the modelled
    subset becomes the primitive of the same kind, int32 / int64 with their bit width *)
 Definition prim_expectations : list (string * string * (string * N)) :=
